@@ -45,6 +45,10 @@ open GqlVerif
 #print axioms GqlVerif.C02Complete.w_unknown_var_type
 #print axioms GqlVerif.C02Complete.w_iface_in_iface
 #print axioms GqlVerif.C02Complete.w_sub_two_same
+#print axioms GqlVerif.C02Complete.w_iface_in_union
+#print axioms GqlVerif.C02Complete.w_union_in_iface
+#print axioms GqlVerif.C02Complete.w_frag_on_scalar
+#print axioms GqlVerif.C02Complete.w_sub_spread_two_same
 #print axioms GqlVerif.C02Gen.codegen_succeeds
 #print axioms GqlVerif.C02Gen.generate_succeeds
 #print axioms GqlVerif.C02Gen.resolve_queryWf
